@@ -1470,7 +1470,8 @@ def main(opts) -> int:
     sjobs, total_sites = site_jobs(root, docs, calib, tier["instances"])
     mjobs = matrix_jobs(root, docs)
     seeded = [{"root": root, "idx": i} for i in range(runs)]
-    jobs = seeded[:16] + sjobs + mjobs + seeded[16:]  # a wall-cap truncation must not starve either kind
+    # a wall-cap truncation must not starve either kind: seeded sequences are spread evenly over the site/matrix runs
+    jobs = seeded[:16] + core.interleave(sjobs + mjobs, seeded[16:])
     results, truncated = core.pool_map(job, jobs, wall_cap=wall)
     herrs = [f"run {jobs[i].get('idx')}: {r['harness_error'][:600]}" for i, r in sorted(results.items())
              if "harness_error" in r]
